@@ -82,7 +82,20 @@ func parseSegments(segments []*recordstore.Segment) ([]*parsedSegment, error) {
 		}
 	}
 
-	return parsed, err
+	// a segment that cannot be parsed (for instance the newest one, when the server
+	// was stopped while creating it) must not hide the other ones.
+	valid := parsed[:0]
+	for _, p := range parsed {
+		if p != nil {
+			valid = append(valid, p)
+		}
+	}
+
+	if len(valid) == 0 {
+		return nil, err
+	}
+
+	return valid, nil
 }
 
 func urlScheme(ctx *gin.Context, trustedProxies conf.IPNetworks, encryption bool) string {
